@@ -130,6 +130,10 @@ def evaluate(
                 ],
                 type_ignores=[],
             )
+        if complex_assign is not None:
+          # All targets, names included, are assigned by `complex_assign` in
+          # their original order (`x[i] = i = 2` stores at the old `i`).
+          result_vars = [RESULT_KEY]
 
       last_expr = ast.Expression(last_expr.value)  # pytype: disable=attribute-error
 
